@@ -62,8 +62,6 @@ impl Extension {
 //@   rewrite `const KERNEL_BATCH_SIZE: usize = 5_000;` => `let KERNEL_BATCH_SIZE: usize = 5_000;`
 //@   rewrite `.ok_or_else(|| Error::TxKernelNotFound)?;` => `.ok_or(Error::TxKernelNotFound)?;`
 //@   rewrite `if let Some(ref s) = stop_state {` => `if let Some(s) = &stop_state {`
-//@   rewrite `for n in 0..self.kernel_pmmr.unpruned_size() {` => `for n in 0..self.kernel_pmmr.unpruned_size()`
-//@   rewrite `\t\t\tif pmmr::is_leaf(n) {` => `\t\t\t{ if pmmr::is_leaf(n) {`
 //@   before `tx_kernels.push(kernel);`:
 //@+    let ghost pre = tx_kernels@;
 //@   after `tx_kernels.push(kernel);`:
@@ -85,7 +83,7 @@ impl Extension {
 //@+        n >= self.kernel_pmmr.size() ==> tx_kernels@.len() == 0,
 //@+        kern_count as nat + tx_kernels@.len() <= n,
 //@   ensures:
-//@+    r.is_ok() ==> sp_stop_requested() || forall|p: u64| 0 <= p < self.kernel_pmmr.size() && sp_is_leaf(p) ==>
+//@+    r.is_ok() ==> (stop_state.is_some() && sp_stop_requested()) || forall|p: u64| 0 <= p < self.kernel_pmmr.size() && sp_is_leaf(p) ==>
 //@+        (#[trigger] self.kernel_pmmr.data(p)).is_some() && sp_sig_ok(self.kernel_pmmr.data(p).unwrap()),
 //@ end
 }
